@@ -515,6 +515,85 @@ theorem tree_sound (E : Env ℝ) (S : LeafSem) (hS : LeafSound E S) :
             linarith
   | sqL2 y A w s => intro v p lam _ _ hg; exact hg.elim
 
+/-! ### evaluation of every nesting = the arithmetic combination it denotes -/
+
+/-- `eval` (transcription of the `__call__` methods) agrees with the denotation `den` (the
+    documented arithmetic: `c·f(x)`, `f(x)+g(x)`, `Σ_i f_i(x_i)`, `s·f(A x − y)`), for every tree -/
+theorem eval_eq_den (E : Env ℝ) (S : LeafSem) (hS : ∀ i x, E.hasEval i = true → E.eval i x = S.val i x) :
+    ∀ (t : Fn ℝ) (x : Arg ℝ) (r : ℝ), Generic t → eval E t x = .ok r → r = den E S t x := by
+  intro t
+  induction t with
+  | leaf i =>
+    intro x r _ h
+    simp only [eval] at h
+    split at h
+    · simp only [Except.ok.injEq] at h; rw [← h]; exact hS i x ‹_›
+    · cases h
+  | scaled c f ih =>
+    intro x r hg h
+    simp only [eval, bind, Except.bind] at h
+    cases h1 : eval E f x with
+    | error e => simp [h1] at h
+    | ok r' =>
+      simp only [h1, pure, Except.pure, Except.ok.injEq] at h
+      rw [← h, ih x r' hg h1]; rfl
+  | sum f g ihf ihg =>
+    intro x r hg h
+    simp only [eval, bind, Except.bind] at h
+    cases h1 : eval E f x with
+    | error e => simp [h1] at h
+    | ok a =>
+      cases h2 : eval E g x with
+      | error e => simp [h1, h2] at h
+      | ok b =>
+        simp only [h1, h2, pure, Except.pure, Except.ok.injEq] at h
+        rw [← h, ihf x a hg.1 h1, ihg x b hg.2 h2]; rfl
+  | snil =>
+    intro x r _ h
+    match x with
+    | .arr _ => simp [eval] at h
+    | .blk (_ :: _) => simp [eval] at h
+    | .blk [] => simp only [eval, Except.ok.injEq] at h; rw [← h]; rfl
+  | scons f rest ihf ihr =>
+    intro x r hg h
+    match x with
+    | .arr _ => simp [eval] at h
+    | .blk [] => simp [eval] at h
+    | .blk (b :: bs) =>
+      simp only [eval, bind, Except.bind] at h
+      cases h1 : eval E f (.arr b) with
+      | error e => simp [h1] at h
+      | ok a =>
+        cases h2 : eval E rest (.blk bs) with
+        | error e => simp [h1, h2] at h
+        | ok s =>
+          simp only [h1, h2, pure, Except.pure, Except.ok.injEq] at h
+          rw [← h, ihf _ a hg.1 h1, ihr _ s hg.2 h2]; rfl
+  | lossNone y A s => intro x r _ h; simp [eval] at h
+  | loss y A f s ih =>
+    intro x r hg h
+    simp only [eval, bind, Except.bind] at h
+    cases h1 : Arg.sub (E.applyOpt A x) y with
+    | error e => simp [h1] at h
+    | ok d =>
+      cases h2 : eval E f d with
+      | error e => simp [h1, h2] at h
+      | ok r' =>
+        simp only [h1, h2, pure, Except.pure, Except.ok.injEq] at h
+        obtain ⟨_, rfl⟩ := Arg.zip_eq_ok h1
+        rw [← h, ih _ r' hg h2]; rfl
+  | sqL2 y A w s => intro x r hg; exact hg.elim
+
+/-- a `SeparableFunctional` denotes the sum of its components on the corresponding blocks -/
+theorem den_sep (E : Env ℝ) (S : LeafSem) : ∀ (fs : List (Fn ℝ)) (bs : List (List ℝ)), fs.length = bs.length →
+    den E S (Fn.sep fs) (.blk bs) = (List.zipWith (fun f b => den E S f (.arr b)) fs bs).sum
+  | [], [], _ => by simp [Fn.sep, den]
+  | f :: fs, b :: bs, h => by
+    simp only [List.length_cons, Nat.add_right_cancel_iff] at h
+    simp [Fn.sep, den, den_sep E S fs bs h]
+  | [], _ :: _, h => by simp at h
+  | _ :: _, [], h => by simp at h
+
 end sound
 
 end Scico.ProxCalc
